@@ -71,6 +71,25 @@ def capacity(tier, seed):
     return out
 
 
+def staggered(tier):
+    """out-of-order completion: one long transfer (window 1) stays open while 9 (BAM: 5) further transfers of the same
+    originator are started and completed strictly one after the other - session numbers are handed out and returned
+    while another one stays in use"""
+    out = []
+    for kind in ("cm", "bam"):
+        nodes = [node("A", [0x10], 700, 1), node("B", [0x20], 700, 1), node("C", [0x30], 400, 2)]
+        if kind == "cm":
+            sends = [send(0, "A", 0x10, 0xD0, 0x20, 20000 if tier == "quick" else 40000, salt=1)]
+            sends += [send(30_000 + 45_000 * i, "A", 0x10, 0xD1 + i, 0x20, 61 + i, salt=2 + i) for i in range(9)]
+            dur = 6_000_000
+        else:
+            sends = [send(0, "A", 0x10, 0xFE, 0x40, 3000, salt=1)]                  # 50 segments at 10 ms
+            sends += [send(20_000 + 90_000 * i, "A", 0x10, 0xFE, 0x41 + i, 61 + i, salt=2 + i) for i in range(5)]
+            dur = 5_000_000
+        out.append({"dll": DLL, "nodes": nodes, "sends": sends, "dur": dur, "expect": {"all": True, "idle": True}})
+    return out
+
+
 def mixes(n, seed, maxsize=400):
     scs = gen21.mixes(n, seed, dll=DLL, maxsize=maxsize)
     for sc in scs:
